@@ -214,7 +214,7 @@ func cmdCheck(args []string) int {
 		}
 		units = append(units, un)
 		for _, o := range un.obls {
-			if (o.Smoke && strings.HasSuffix(o.Name, "smoke:requires")) || (!o.Smoke && kindWanted(p, o.Kind) && p.selected(name, o)) {
+			if (o.Smoke && strings.HasSuffix(o.Name, "smoke:requires")) || (!o.Smoke && (kindWanted(p, o.Kind) || strings.Contains(o.Name, "["+p.ID+"]")) && p.selected(name, o)) {
 				jobs = append(jobs, &job{un: un, obl: o})
 			}
 		}
@@ -505,8 +505,11 @@ func cmdCheck(args []string) int {
 		}
 		st := selfTest(id)
 		thoroughExtra["selftest"] = st
-		det, nseed, quiet, nharm := 0, 0, 0, 0
+		det, nseed, quiet, nharm, und := 0, 0, 0, 0, 0
 		for _, x := range st {
+			if n, ok := x["undecided_units"].(int); ok && n > 0 && x["detected"] != true {
+				und++
+			}
 			if x["harmless"] == true {
 				nharm++
 				if x["quiet"] == true {
@@ -519,7 +522,7 @@ func cmdCheck(args []string) int {
 				det++
 			}
 		}
-		fmt.Printf("SELFTEST %s: %d of %d seeded changes reported, %d of %d harmless edits quiet\n", id, det, nseed, quiet, nharm)
+		fmt.Printf("SELFTEST %s: %d of %d seeded changes reported, %d of %d harmless edits quiet (%d answered with an undecided unit)\n", id, det, nseed, quiet, nharm, und)
 	}
 	wall := time.Since(start).Seconds()
 	if !*noEvidence {
@@ -735,6 +738,8 @@ func selfTest(id string) []map[string]interface{} {
 					obls = append(obls, trunc(strings.TrimSpace(lines[i+1]), 160))
 				}
 			}
+			und := strings.Count(txt, "UNDECIDED-UNIT")
+			rec["undecided_units"] = und
 			if harmless[pd] {
 				rec["quiet"] = len(obls) == 0
 			} else {
